@@ -283,8 +283,12 @@ class Context(object):
             wou = self.warnOnUnrecognized
             self.warnOnUnrecognized = False
             for key, value in list(data.items()):
-                n = self[value.get('macroName', 'Macro')]()
-                n.restore(value)
+                # A damaged entry must not keep the others from loading
+                try:
+                    n = self[value.get('macroName', 'Macro')]()
+                    n.restore(value)
+                except Exception:
+                    continue
                 self.labels[key] = n
             self.warnOnUnrecognized = wou
         except Exception as msg:
